@@ -351,7 +351,9 @@ impl From<Alias> for String {
 
 impl From<&NodeId> for Alias {
     fn from(nid: &NodeId) -> Self {
-        Alias(nid.to_string())
+        // The textual form of a node id is longer than `MAX_ALIAS_LENGTH`;
+        // keep a prefix, so that the alias is valid (the text is ASCII).
+        Alias(nid.to_human().chars().take(MAX_ALIAS_LENGTH).collect())
     }
 }
 
